@@ -137,6 +137,11 @@ func replayFile(ctx *Ctx, path string) {
 			fmt.Fprintf(os.Stderr, "implrun: bad replay line: %v\n", err)
 			os.Exit(2)
 		}
+		if fio, ok := replayersIO[entry]; ok {
+			in2, out := fio(in)
+			ctx.Emit(entry, in2, out, "replay")
+			continue
+		}
 		fn, ok := replayers[entry]
 		if !ok {
 			fmt.Fprintf(os.Stderr, "implrun: no replayer for entry %q\n", entry)
